@@ -5,16 +5,21 @@ import (
 	"github.com/LemoFoundationLtd/lemochain-core/common"
 	"github.com/LemoFoundationLtd/lemochain-core/common/crypto"
 	"github.com/LemoFoundationLtd/lemochain-core/common/verifhook"
+	"sync"
 )
 
 // cache confirm to save CPU. This confirm may not be used at last
 var sigCache struct {
-	Hash common.Hash
-	Sig  []byte
+	sync.Mutex // SignBlock is called with the chain lock (TryConfirm, mining) and without it (background confirm of stable blocks)
+	Hash       common.Hash
+	Sig        []byte
 }
 
 // SignBlock sign a block hash by node key
 func SignBlock(blockHash common.Hash) ([]byte, error) {
+	sigCache.Lock()
+	defer sigCache.Unlock()
+
 	if sigCache.Hash == blockHash {
 		return sigCache.Sig, nil
 	}
